@@ -86,6 +86,11 @@ AnchorPaths(d) == {<<Seg("KEY", k)>> : k \in StrKeysOf(d) \cup {"zz"}} \cup {<<S
 AliasEvents(d) == IF ~AliasOps THEN {} ELSE
   {[op |-> "alias", segs |-> p, t |-> "", v |-> "", asegs |-> q, name |-> n] : p \in AliasTargets(d), q \in AnchorPaths(d), n \in {"", "A", "B"}}
 Events(d) == BaseEvents(d) \cup AliasEvents(d)
+\* one deterministic, document-changing set (alias mode only)
+Warm(d) == IF ~AliasOps \/ (\E i \in 1..Len(d) : d[i].anchor # "") THEN {} ELSE
+  LET WS == {e \in BaseEvents(d) : e.op = "set_must" /\ Len(e.segs) = 1 /\ e.segs[1].ty \in {"KEY", "INDEX"}
+                                 /\ LET n == EStep([doc |-> d, out |-> "ok"], e) IN n.out = "ok" /\ ~PlainEq(n.doc, d)} IN
+  IF WS = {} THEN {} ELSE {CHOOSE e \in WS : TRUE}
 
 \* an event is worth a transition when it is in the modelled domain and either changes the document or is refused
 Interesting(s, e) == LET n == EStep(s, e) IN
@@ -93,8 +98,14 @@ Interesting(s, e) == LET n == EStep(s, e) IN
   \/ e.op = "alias" /\ n.out = "yperr"        \* refusals of alias_nodes (several anchors, a name in use, ...) are replayed too
 
 Edit == /\ phase = "edit" /\ Len(hist) < EditDepth
-        /\ (AliasOps /\ Len(hist) > 0) => hist[1].out = "ok"      \* nothing follows a refused alias_nodes (the document is unchanged)
-        /\ \E e \in (IF AliasOps /\ Len(hist) > 0 THEN BaseEvents(cur) ELSE IF AliasOps THEN AliasEvents(cur) ELSE Events(cur)) :   \* alias mode: one alias_nodes, then sets / deletes
+        /\ (AliasOps /\ Len(hist) > 0) => \A j \in 1..Len(hist) : hist[j].out = "ok"      \* nothing follows a refused alias_nodes (the document is unchanged)
+        /\ \E e \in (IF ~AliasOps THEN Events(cur)
+                     \* alias mode: [alias_nodes, set / delete] and [one "warming" set, alias_nodes, set / delete] - in the second
+                     \* shape the Processor has already edited an alias-free document when the alias comes into being
+                     ELSE IF Len(hist) = 0 THEN AliasEvents(cur) \cup Warm(cur)
+                     ELSE IF Len(hist) = 1 /\ hist[1].op = "set_must" THEN AliasEvents(cur)
+                     ELSE IF hist[Len(hist)].op = "alias" THEN BaseEvents(cur)
+                     ELSE {}) :
              LET n == EStep([doc |-> cur, out |-> "ok"], e) IN
              /\ Interesting([doc |-> cur, out |-> "ok"], e)
              /\ cur' = n.doc
